@@ -59,6 +59,8 @@ static unsigned fm_reflect_pct = 30;
 static unsigned fm_lag = 3;         /* collectives: polls before the peer "enters" (0..lag) */
 static unsigned fm_spread = 16;     /* new events: tq in [floor, floor+spread] */
 static unsigned fm_cancel_span = 400;
+static unsigned fm_hold;             /* hold this rank's new-colour messages in flight while a GVT round is open */
+static int fm_round_open;
 static unsigned fm_late_burst = 6;   /* cancellations fired when this rank announces termination */
 static unsigned fm_max_age = 40;    /* a message in flight is force-delivered after that many probes */
 static unsigned fm_ntypes = 2;
@@ -74,7 +76,7 @@ static unsigned fm_window = 24; /* the peer's virtual time stays within this dis
 static int fm_stopped, fm_term_sent, fm_round_active;
 /* collectives */
 static int fm_sc_wait = -1, fm_mn_wait = -1; /* polls left before completion; -1: none pending */
-static uint32_t fm_sc_ours;
+static uint32_t fm_sc_ours, fm_sc_theirs;
 static uint32_t *fm_sc_res;
 static double fm_mn_ours, *fm_mn_res;
 /* statistics */
@@ -205,13 +207,45 @@ static void fm_peer_act(void)
 		fm_stopped = 1;
 }
 
-/* this rank sent something to the peer */
+/* messages of this rank on their way to the peer: delivered after an arbitrary finite delay (model events and anti-messages;
+ * control messages are handled at once). What is counted at SEND time per colour is what this rank must report in the
+ * sum-scatter (S oracle `s_sent_count_wrong`); what arrives at the peer below the last GVT is a GVT-safety violation seen from
+ * the receiving side (S oracle `s_peer_below_gvt`): an in-flight message is protected only by its sender's accumulator. */
+struct fm_out { int size; unsigned char *bytes; int colour; unsigned age; };
+static struct fm_out fm_outbox[FM_INBOX];
+static unsigned fm_outbox_n;
+static uint32_t fm_from_us_colour[2];
+static unsigned long fm_sent_count_wrong, fm_peer_below_gvt, fm_n_delayed;
+static void fm_peer_receive(const void *buf, int size);
+static void fm_outbox_deliver(unsigned i)
+{
+	struct fm_out o = fm_outbox[i];
+	fm_outbox[i] = fm_outbox[--fm_outbox_n];
+	fm_peer_receive(o.bytes + msg_preamble_size(), o.size);
+	free(o.bytes);
+}
+/* deliver some of the messages in flight to the peer; `must` = colour whose messages must all arrive now (-1: none) */
+static void fm_outbox_progress(int must)
+{
+	for(unsigned i = 0; i < fm_outbox_n;) {
+		struct fm_out *o = &fm_outbox[i];
+		/* fm_hold: while a GVT round is open nothing but the old-colour messages the protocol waits for is delivered, so
+		 * new-colour messages stay in flight across the peer's report (they are protected by this rank's accumulator only) */
+		if(o->colour == must || (!(fm_hold && fm_round_open) && (++o->age > fm_max_age || vrng_below(3) == 0)))
+			fm_outbox_deliver(i);
+		else
+			++i;
+	}
+}
+
+/* this rank sent something to the peer: it arrives now */
 static void fm_peer_receive(const void *buf, int size)
 {
 	if(size == (int)sizeof(enum msg_ctrl_code)) {
 		enum msg_ctrl_code c;
 		memcpy(&c, buf, sizeof(c));
 		if(c == MSG_CTRL_GVT_START) {
+			fm_round_open = 1;
 			fm_round_active = 1;
 			fm_flip_pending = 1;
 		}
@@ -230,6 +264,8 @@ static void fm_peer_receive(const void *buf, int size)
 	}
 	const struct lp_msg *m = (const struct lp_msg *)((const char *)buf - msg_preamble_size());
 	uint64_t tq = fm_dbl_tq(m->dest_t);
+	if(tq < fm_last_gvt)
+		fm_peer_below_gvt++;
 	if(tq < fm_floor)
 		fm_floor = tq; /* the peer rolls back */
 	if(size == (int)msg_remote_anti_size()) {
@@ -299,8 +335,27 @@ int MPI_Isend(const void *buf, int count, MPI_Datatype dt, int dest, int tag, MP
 	*req = 3;
 	if(dest == 0)
 		fm_post(buf, count); /* to this rank itself (control broadcasts) */
-	else
+	else if(count == (int)sizeof(enum msg_ctrl_code))
 		fm_peer_receive(buf, count);
+	else {
+		const struct lp_msg *m = (const struct lp_msg *)((const char *)buf - msg_preamble_size());
+		int colour = count == (int)msg_remote_anti_size() ? (int)((m->raw_flags >> 1) & 1U) : (int)(m->raw_flags & 1U);
+		fm_from_us_colour[colour]++;
+		if(fm_outbox_n >= FM_INBOX) {
+			fprintf(stderr, "fakempi: outbox overflow\n");
+			abort();
+		}
+		/* the buffer must be large enough for the field accesses of fm_peer_receive (it reads through a struct lp_msg) */
+		size_t cap = (size_t)count + sizeof(struct lp_msg);
+		unsigned char *b = calloc(1, cap + msg_preamble_size());
+		memcpy(b + msg_preamble_size(), buf, (size_t)count);
+		fm_outbox[fm_outbox_n].size = count;
+		fm_outbox[fm_outbox_n].bytes = b; /* NOTE: data starts at b + preamble; see fm_outbox_deliver */
+		fm_outbox[fm_outbox_n].colour = colour;
+		fm_outbox[fm_outbox_n].age = 0;
+		fm_outbox_n++;
+		fm_n_delayed++;
+	}
 	return 0;
 }
 int MPI_Send(const void *buf, int count, MPI_Datatype dt, int dest, int tag, MPI_Comm c)
@@ -319,6 +374,7 @@ int MPI_Mprobe(int source, int tag, MPI_Comm c, MPI_Message *msg, MPI_Status *st
 int MPI_Improbe(int source, int tag, MPI_Comm c, int *flag, MPI_Message *msg, MPI_Status *st)
 {
 	(void)source, (void)tag, (void)c;
+	fm_outbox_progress(-1);
 	fm_peer_act();
 	*flag = 0;
 	if(!fm_inbox_n)
@@ -366,6 +422,7 @@ int MPI_Ireduce_scatter_block(const void *sendbuf, void *recvbuf, int recvcount,
 {
 	(void)recvcount, (void)dt, (void)op, (void)c;
 	fm_sc_ours = ((const uint32_t *)sendbuf)[0];
+	fm_sc_theirs = ((const uint32_t *)sendbuf)[1];
 	fm_sc_res = recvbuf;
 	fm_sc_wait = (int)vrng_below(fm_lag + 1);
 	*req = 1;
@@ -397,6 +454,12 @@ int MPI_Test(MPI_Request *req, int *flag, MPI_Status *st)
 		int old = !fm_phase;
 		*fm_sc_res = fm_sc_ours + fm_sent_colour[old];
 		fm_sent_colour[old] = 0;
+		/* what this rank reports as sent to the peer in the old colour must be what it really sent */
+		if(fm_sc_theirs != fm_from_us_colour[old])
+			fm_sent_count_wrong++;
+		fm_from_us_colour[old] = 0;
+		/* the peer receives all old-colour messages before it starts its second reduction */
+		fm_outbox_progress(old);
 		fm_sc_wait = -1;
 		*req = MPI_REQUEST_NULL;
 	} else if(*req == 2) {
@@ -428,6 +491,7 @@ int MPI_Test(MPI_Request *req, int *flag, MPI_Status *st)
 		if(fm_floor < fm_last_gvt)
 			fm_floor = fm_last_gvt; /* only an idle peer can be below: whatever it sends later is at or above the GVT */
 		fm_mn_wait = -1;
+		fm_round_open = 0;
 		fm_n_rounds++;
 		*req = MPI_REQUEST_NULL;
 		fm_post_ctrl(MSG_CTRL_GVT_DONE);
